@@ -77,4 +77,37 @@ theorem MemStore.set_bytes_le (s : MemStore) (now : Nat) (k : Key) (r : Record) 
   · simp only; have := Mem.bytes_insert_le s.mem k (MemStore.stamp r s.casId now); rw [hstamp] at this; exact this
   · simp only; have := Mem.bytes_insert_le s.mem k (MemStore.stamp r (MemStore.satSucc r.header.cas) now); rw [hstamp] at this; exact this
 
+section
+open MemStore
+/-- the eviction loop never touches the CAS counter -/
+theorem evictLoop_casId (value : Nat) (tape : List Key) (p : Policy) (u : Nat) :
+    (Policy.evictLoop value tape p u).inner.casId = p.inner.casId := by
+  induction tape generalizing p u with
+  | nil => unfold Policy.evictLoop; split <;> (try split) <;> rfl
+  | cons v rest ih =>
+    unfold Policy.evictLoop
+    by_cases hg : u > p.limit
+    · simp only [hg, if_true]
+      by_cases he : p.inner.len = 0
+      · simp [he]
+      · simp only [he, if_false]
+        cases hl : p.inner.mem.lookup v with
+        | none => rfl
+        | some r => simp only; rw [ih]
+    · simp [hg]
+
+/-- a store without CAS behind the policy is always acknowledged, with the next CAS, and its record is in the store
+    afterwards — for every limit, usage and tape of victims -/
+theorem policy_set_cas0 (p : Policy) (now : Nat) (k : Key) (r : Record) (h : r.header.cas = 0) :
+    (p.set now k r).2 = .ok p.inner.casId ∧
+    (p.set now k r).1.inner.mem.lookup k = some (stamp r p.inner.casId now) := by
+  have hc : (p.incrMemUsage r.len).inner.casId = p.inner.casId := by
+    unfold Policy.incrMemUsage; exact evictLoop_casId _ _ _ _
+  simp only [Policy.set]
+  rw [set_cas0 _ _ _ _ h]
+  simp [hc, Mem.lookup_insert_self]
+
+
+end
+
 end Memc
